@@ -38,7 +38,7 @@ CLAIMS = {
 SOCK_NOTE = COMMON_NOTE + "Model: coq/Model/Sim.v + SimState.v (hand-written from src/tcp_socket.cpp, src/acceptor.cpp, src/udp_socket.cpp, src/nat.cpp, src/resolver.cpp, src/simulation.cpp, src/io_service.cpp); the whole scenario (all sockets, queues, kernel) runs in the model and in the library and the traces must be equal to the nanosecond. PARTIAL: the theorems are about the model's component functions (stated for every input/state of those functions) and, for C05-C08 and C20, about per-component state machines over event histories of any length (Proofs/RxProofs.v, TxProofs.v, AcceptProofs.v, UdpProofs.v, each with refinement lemmas to the model's socket operations); the end-to-end statement over whole executions of the composite (sender + route + receiver as one system) is carried by the correspondence and the oracle, not by a single theorem (DESIGN.md 13.7). "
 for pid, tech, text in [
  ("C05", "Coq proof (receiver over all histories: for any arrival order and duplication of the numbered segments and any read sizes, bytes read ++ bytes queued = the released segments, a prefix of the bytes sent; EOF released and reported last; sender over a whole write: segments are consecutive slices whose concatenation is the reported byte count; retransmission carries the same segment; read = exact prefix of the queued stream for every packetisation and buffer layout; close clears; queues conserve) + whole-scenario trace equality incl. lossy/finite-capacity routes + digest oracle",
-  "Theorems in coq/Properties/Properties_C05.v: C05_bytes_read_are_a_prefix_of_bytes_sent, C05_read_plus_queued_is_exactly_the_released_segments, C05_eof_is_reported_after_every_byte, C05_eof_is_released_last (for every segment list, every arrival sequence out of it and every read-size sequence), C05_segments_of_a_write_are_consecutive_slices_of_at_most_one_mss, with refinement lemmas to tcp_incoming / tcp_read_some / write_loop; composition across the route and no-leak-across-reuse at scenario level by trace equality and a digest oracle on composed transfers."),
+  "Theorems in coq/Properties/Properties_C05.v: C05_bytes_read_are_a_prefix_of_bytes_sent, C05_read_plus_queued_is_exactly_the_released_segments, C05_eof_is_reported_after_every_byte, C05_eof_is_released_last (for every segment list, every arrival sequence out of it and every read-size sequence), C05_segments_of_a_write_are_consecutive_slices_of_at_most_one_mss (C05_segments_of_a_write_on_queue_first_routes: the same for the real forwarding function with no hypothesis about the network when the route starts with a queue), with refinement lemmas to tcp_incoming / tcp_read_some / write_loop; composition across the route and no-leak-across-reuse at scenario level by trace equality and a digest oracle on composed transfers."),
  ("C06", "Coq proof (a pending read is woken whenever data is queued and then completes; an ACK that leaves room in the window runs the pending write, which completes; a write blocks exactly on a full window and a drop never shrinks the window below one segment; dropped segments are resent oldest first when they fit; the awaited segment is never parked in the reorder buffer; an accept is never outstanding while a connection waits) + whole-scenario trace equality + progress oracle on implementation traces (every composed transfer must finish); known finding: no retransmission timer",
   "Theorems in coq/Properties/Properties_C06.v (wake-up rules after the repairs); progress itself (liveness) is checked per scenario by the oracle on transfers over finite tail-drop queues; the class of stalls caused by the missing retransmission timer is a listed known finding."),
  ("C07", "Coq proof (a connect succeeds only to a registered, listening acceptor, is refused otherwise; backlog over all histories of SYN arrivals, accepts and cancels: connections handed out ++ backlog = arrivals in order, each exactly once, k-th accept gets k-th arrival; accepted socket attached to that connection with the listening endpoint as local endpoint; close resets the backlog) + whole-scenario trace equality + endpoint-view oracle",
